@@ -189,11 +189,14 @@ def run_one(spec, h, coercer):
     raw = q if isinstance(q, bytes) else q.encode("utf-8", "surrogatepass")
     front = classify_front_end(q)
     check_envelope(spec, resp, raw, coercer, h.calls, front)
-    return front, resp
+    keep = copy.deepcopy(resp)
+    core.scribble(resp, "c18")
+    return front, keep
 
 
 def case(c, stats):
     schema, plan = c01.build_schema(c)
+    plan["two_step"] = c.maybe(40)
     coercer = Coercer() if c.maybe(50) else None
     kw = {"error_coercer": coercer} if coercer else {}
     h = run_async(c01.make_harness(schema, plan, kw))
